@@ -67,6 +67,7 @@ struct RunCtx {
     bool node_events{true};
     bool snap{false};
     bool snap_deep{true};
+    bool copy_back{false};            // copy the graph's global state back into the active GlobalContext after the run
     std::unordered_map<const void *, std::string> live_graphs;  // graph memory -> gid while started
     std::unordered_map<std::string, int> gen;                    // path -> generation counter
     // real-time runs
